@@ -1188,6 +1188,145 @@ theorem powerloss_then_truncate_returns_zero_filled_bytes :
         (t.1.number, retrieve t.1 t.2 2)) =
       some (3, .some (List.replicate 5 2 ++ List.replicate 10 0)) := by decide
 
+/-! ## round 6 — which histories are safe under power loss: the sync discipline
+
+`FreezerFiles::sync_all` (called by `Freezer::freeze` once, at its end) syncs the HEAD data file and
+the INDEX.  `Dur` records what is durable; a power-loss image that respects it may cut the INDEX and
+every data file up to the head anywhere at or beyond the durable length.  The theorems say exactly
+when such an image is one of the crash cuts of `crash_any_cut` (older files intact — hence safe):
+iff every data file below the head is durable in full (`OlderSynced`), and that this is kept by
+every operation EXCEPT a rollover that leaves unsynced bytes in the file it rolls away from — which
+is what `append` does whenever a freeze call appends to a file and then rolls over. -/
+
+/-- what has been made durable: INDEX bytes, and a byte count per data file -/
+structure Dur where
+  idx : Nat
+  file : Nat → Nat
+
+/-- `FreezerFiles::sync_all`: `head.file.sync_all()` and `index.sync_all()` — nothing else -/
+def syncAll (h : Handle) (d : Disk) (u : Dur) : Dur :=
+  { idx := d.idxSize, file := fun i => if i = h.headId then (d.files i).length else u.file i }
+
+/-- every data file below the head is durable in full -/
+def OlderSynced (h : Handle) (d : Disk) (u : Dur) : Prop :=
+  ∀ i, i < h.headId → (d.files i).length ≤ u.file i
+
+/-- a power-loss image: INDEX cut to `il` bytes, every data file up to the head cut to `cut i` bytes
+    (files above the head are orphans no operation reads before emptying them) -/
+def powerImage (h : Handle) (d : Disk) (il : Nat) (cut : Nat → Nat) : Disk :=
+  { d.cutIdx il with
+    files := fun i => if i ≤ h.headId then ((d.cutIdx il).files i).take (cut i) else (d.cutIdx il).files i }
+
+theorem cutIdx_files (d : Disk) (n : Nat) : (d.cutIdx n).files = d.files := by
+  unfold Disk.cutIdx; split <;> rfl
+
+/-- **Safe states.**  If every data file below the head is durable in full, every power-loss image
+    that respects the durable lengths is exactly a crash cut of the property's crash model (INDEX
+    and head file cut, older files intact) — so `crash_any_cut` applies: re-opening succeeds and
+    yields a prefix with every item that survived completely, each byte-for-byte. -/
+theorem powerloss_safe_when_older_synced {h : Handle} {d : Disk} {items : List Bytes} {u : Dur}
+    (g : Good d items) (hk : HandleOk h d) (hs : OlderSynced h d u)
+    (il : Nat) (cut : Nat → Nat) (hcut : ∀ i, u.file i ≤ cut i) (hil : INDEX_ENTRY_SIZE ≤ il) :
+    powerImage h d il cut = applyCut d il h.headId (some (cut h.headId)) ∧
+    ∃ h2 d2 n, «open» (powerImage h d il cut) = some (h2, d2) ∧ HandleOk h2 d2 ∧
+      n ≤ items.length ∧ Good d2 (items.take n) ∧
+      (∀ i, i < items.length → Survives h d il (some (cut h.headId)) i → i < n) := by
+  have heq : powerImage h d il cut = applyCut d il h.headId (some (cut h.headId)) := by
+    unfold powerImage applyCut Disk.cutFile
+    simp only
+    congr 1
+    funext i
+    rw [cutIdx_files]
+    unfold setFile
+    by_cases hi : i = h.headId
+    · subst hi; simp
+    · simp only [hi, if_false]
+      by_cases hle : i ≤ h.headId
+      · rw [if_pos hle]
+        have hlt : i < h.headId := by omega
+        exact List.take_of_length_le (Nat.le_trans (hs i hlt) (hcut i))
+      · rw [if_neg hle]
+  refine ⟨heq, ?_⟩
+  rw [heq]
+  exact crash_any_cut g hk il (some (cut h.headId)) hil
+
+/-- `sync_all` keeps `OlderSynced` and makes the head durable in full -/
+theorem olderSynced_sync {h : Handle} {d : Disk} {u : Dur} (hs : OlderSynced h d u) :
+    OlderSynced h d (syncAll h d u) ∧ (d.files h.headId).length ≤ (syncAll h d u).file h.headId := by
+  constructor
+  · intro i hi
+    have : i ≠ h.headId := by omega
+    simp only [syncAll, this, if_false]
+    exact hs i hi
+  · simp [syncAll]
+
+/-- **The discipline.**  An append keeps `OlderSynced` if it does not roll over, or if the head it
+    rolls away from is durable in full at that moment. -/
+theorem olderSynced_append (max : Nat) {h : Handle} {d : Disk} {u : Dur} (x : Bytes)
+    (hs : OlderSynced h d u)
+    (hroll : h.headBytes + x.length > max → (d.files h.headId).length ≤ u.file h.headId) :
+    OlderSynced (append max h d x).1 (append max h d x).2 u := by
+  unfold append
+  by_cases hr : h.headBytes + x.length > max
+  · simp only [hr, if_true]
+    intro i hi
+    have hne : i ≠ h.headId + 1 := by simp only at hi; omega
+    simp only [setFile_other _ _ _ _ hne]
+    by_cases he : i = h.headId
+    · rw [he]; exact hroll hr
+    · exact hs i (by simp only at hi; omega)
+  · simp only [hr, if_false]
+    intro i hi
+    have hne : i ≠ h.headId := by simp only at hi; omega
+    simp only [setFile_other _ _ _ _ hne]
+    exact hs i hi
+
+/-- `truncate` keeps `OlderSynced` (the new head is not above the old one; files below it are
+    untouched) -/
+theorem olderSynced_truncate {h : Handle} {d : Disk} {items : List Bytes} {u : Dur}
+    (g : Good d items) (hk : HandleOk h d) (hs : OlderSynced h d u) (k : Nat) :
+    OlderSynced (truncate h d k).1 (truncate h d k).2 u := by
+  unfold truncate
+  by_cases hg : k < 1 ∨ k + 1 ≥ h.number
+  · rw [if_pos hg]; exact hs
+  · rw [if_neg hg]
+    cases he : (d.idx.take (k + 1))[k]? with
+    | none => simp only [he]; exact hs
+    | some e =>
+      simp only [he]
+      have he0 : d.idx[k]? = some e := by
+        rw [List.getElem?_take] at he
+        split at he
+        · exact he
+        · cases he
+      have hle : e.fid ≤ h.headId := g.fid_le_head hk he0
+      intro i hi
+      have hi' : i < e.fid := hi
+      have hne : i ≠ e.fid := by omega
+      simp only [setFile_other _ _ _ _ hne]
+      by_cases hx : e.fid ≠ h.headId
+      · simp only [hx, ne_eq, not_false_eq_true, if_true]
+        have : ¬ (i > e.fid ∧ i ∈ h.cache) := by omega
+        simp only [this, if_false]
+        exact hs i (by omega)
+      · simp only [hx, if_false]
+        exact hs i (by omega)
+
+/-- **Witness that the discipline is necessary, and that the code does not follow it.**  The
+    four-append batch `demoOps` (three items into file 0, the fourth rolls into file 1, one
+    `sync_all` at the end — a `Freezer::freeze` call) ends with NOTHING of file 0 durable:
+    `OlderSynced` fails, and `demoPowerLossDisk` (file 0 at 20 bytes) is an image that respects the
+    durable lengths — the one on which items 2 and 3 are lost for good
+    (`powerloss_older_file_short_is_not_repaired`). -/
+theorem freeze_batch_rollover_leaves_older_file_unsynced :
+    let s := (run 50 demoSys demoOps).getD demoSys
+    let u := syncAll s.h s.d ⟨12, fun _ => 0⟩
+    (s.h.headId, (s.d.files 0).length, u.file 0, u.file 1, u.idx) = (1, 45, 0, 15, 60) ∧
+    (powerImage s.h s.d 60 (fun i => if i = 0 then 20 else 15)).files 0 = demoPowerLossDisk.files 0 ∧
+    (powerImage s.h s.d 60 (fun i => if i = 0 then 20 else 15)).files 1 = demoPowerLossDisk.files 1 ∧
+    (powerImage s.h s.d 60 (fun i => if i = 0 then 20 else 15)).idx = demoPowerLossDisk.idx := by
+  decide
+
 /-! ## round 6 — concurrent use as it exists
 
 `freeze` and `truncate` read `self.number()` before taking the lock (`Model/FreezerTop.lean`,
